@@ -664,6 +664,8 @@ class Circuit(Function):
                         gate_type=cur_gate.gate_type,
                         operands=connector_operands,
                     )
+                    if cur_gate.gate_type != gate.INPUT:
+                        gates_for_block.add(connector_label)
 
         self.set_outputs(
             [output for output in self._outputs if output not in this_connectors]
